@@ -206,3 +206,43 @@ Example C02_text_nonvacuous :
   x30 :: x78 :: map (fun ud => hex_char (fst ud) (snd ud)) [(false, 15); (true, 15)]%N = ascii_bytes "0xfF" /\
   horner 16 [15; 15]%N 0 = 255%N.
 Proof. repeat split; vm_compute; reflexivity. Qed.
+
+(* 9. Number texts, composed with property C19's model of ethtypes.BigIntegerFromString and its
+      theorems: for every text t of the quantifier's spelling classes (canonical decimal, "-" decimal,
+      0x-hex in any case, JSON number with fraction / exponent; [denotes t m e]: t denotes m * 10^e)
+      given as a JSON string or JSON number for a uint<M> / int<M> parameter: if accepted, the bytes are
+      the word of the integer z = m * 10^e and z is in range; never a panic; and (texts shorter than
+      2^28 bytes with |e| <= 10^6) an in-range integer is accepted, an out-of-range one rejected, a
+      non-integral one rejected. *)
+From FFS Require Abi.InputC19 EthTypes.Spec EthTypes.ProofsNum.
+Theorem C02_number_texts_exact_or_rejected :
+  forall e s m k x t mm ee,
+    (e = EInt \/ e = EUInt) -> tc_wf (int_tc e s m k) = true ->
+    InputC19.text_input x t -> EthTypes.Spec.denotes t mm ee ->
+    let run := EncodeABIDataValues InputC19.bifs19 [int_tc e s m k] (XList [x]) in
+    match run with
+    | Ok b => exists z, EthTypes.Spec.sci_is mm ee z /\ in_range e m z /\ b = word z
+    | Err _ => True
+    | Panic => False
+    end /\
+    (EthTypes.ProofsNum.guard t ee ->
+       (forall z, EthTypes.Spec.sci_is mm ee z -> in_range e m z -> run = Ok (word z)) /\
+       (forall z, EthTypes.Spec.sci_is mm ee z -> ~ in_range e m z -> exists err, run = Err err) /\
+       ((forall z, ~ EthTypes.Spec.sci_is mm ee z) -> exists err, run = Err err)).
+Proof.
+  intros e s m k x t mm ee He W TI Dn run. split.
+  - exact (InputC19.text_integers_exact e s m k x t mm ee He W TI Dn).
+  - intros G. exact (InputC19.text_integers_complete e s m k x t mm ee He W TI Dn G).
+Qed.
+Print Assumptions C02_number_texts_exact_or_rejected.
+
+Example C02_number_texts_nonvacuous :
+  let j := EthTypes.Spec.mkJ false (ascii_bytes "25") (Some (ascii_bytes "5")) (Some (false, 0%N, ascii_bytes "1")) in
+  EthTypes.Spec.denotes (ascii_bytes "25.5e1") (EthTypes.Spec.j_mant j) (EthTypes.Spec.j_e j) /\
+  EthTypes.Spec.sci_is (EthTypes.Spec.j_mant j) (EthTypes.Spec.j_e j) 255 /\
+  EncodeABIDataValues InputC19.bifs19 [int_tc EUInt (ascii_bytes "8") 8 []] (XList [XJNum (ascii_bytes "25.5e1")]) = Ok (word 255) /\
+  is_err (EncodeABIDataValues InputC19.bifs19 [int_tc EUInt (ascii_bytes "8") 8 []] (XList [XJNum (ascii_bytes "25.55e1")])) = true.
+Proof.
+  cbv zeta. split; [|repeat split; vm_compute; reflexivity].
+  exact (EthTypes.Spec.den_json (EthTypes.Spec.mkJ false (ascii_bytes "25") (Some (ascii_bytes "5")) (Some (false, 0%N, ascii_bytes "1"))) eq_refl).
+Qed.
